@@ -245,13 +245,39 @@ def exhaustive_universe():
     """The bounded universe enumerated completely in the thorough tier: all depth-1 layouts
     (struct / array / union of leaves), dicts and lists of plain values, Const / int on the
     right; every pair, with every AssignType and a family of iterable selections."""
-    lay = (LEAVES + structs(["a", "b"], LEAVES) + arrays(LEAVES, [1, 2, 3]) + unions(["a", "b"], [U5, U6]))
+    lay = depth1_layouts()
     lc = [U5, U6]
     rc = [U5, U6, C5, INT]
     lhs = lay + dicts(["a", "b"], lc) + lists(lc, 2)
     rhs = lay + dicts(["a", "b"], rc) + lists(rc, 2) + [C5, C6, INT]
     sels = [mode(m) for m in MODES] + [{"k": "iter", "n": n} for n in ([], ["a"], ["b"], ["a", "b"], ["0"], ["0", "1"])]
     return [(l, r, fs) for l in lhs for r in rhs for fs in sels]
+
+
+def depth1_layouts():
+    return LEAVES + structs(["a", "b"], LEAVES) + arrays(LEAVES, [1, 2, 3]) + unions(["a", "b"], [U5, U6])
+
+
+def nested_family():
+    """Enumerated depth-2 family: l = {a: X, b: u5}, r = {a: Y, b: u5} for all depth-1 layouts
+    X, Y, with AssignTypes, iterables and nested mappings addressing the sub-structure."""
+    lay = depth1_layouts()
+    sels = [mode(m) for m in MODES] + [{"k": "iter", "n": ["a"]}, {"k": "iter", "n": ["a", "b"]}]
+    sels += [{"k": "map", "m": {"a": mode(m)}} for m in MODES]
+    sels += [{"k": "map", "m": {"a": {"k": "iter", "n": ["a"]}, "b": mode("ALL")}}]
+    return [({"t": "struct", "f": {"a": x, "b": U5}}, {"t": "struct", "f": {"a": y, "b": U5}}, fs)
+            for x in lay for y in lay for fs in sels]
+
+
+def wrapper_family():
+    """Enumerated family around "a single-value structure is assigned through its only field":
+    values wrapped 0-2 times in single-field structs / length-1 arrays on either side."""
+    def wraps(x):
+        s = lambda n, c: {"t": "struct", "f": {n: c}}
+        a = lambda c: {"t": "array", "e": c, "n": 1}
+        return [x, s("a", x), a(x), s("a", s("b", x)), a(s("a", x)), s("a", a(x))]
+    cores = [U5, U6, S5, {"t": "union", "f": {"a": U5}}, {"t": "struct", "f": {"a": U5, "b": U6}}]
+    return [(l, r, mode(m)) for x in cores for y in cores for l in wraps(x) for r in wraps(y) for m in MODES]
 
 
 NAMES = ["a", "b", "c"]
@@ -408,6 +434,9 @@ def judge(rep, rows, chunks):
     rep.add("table_states", states)
     for r in rej:
         row = rows[r["tid"] - 1]
+        lab = "signed_unwrap_unchecked" if r.get("signed_unwrap_unchecked") else "unexplained"
+        rep.coverage.setdefault("rejected_rows_by_label", {}).setdefault(lab, 0)
+        rep.coverage["rejected_rows_by_label"][lab] += 1
         utilcheck.violation(rep, {
             "component": "assign",
             "cfg": {"l": row["l"], "r": row["r"], "fs": row["fs"], "observed_raised": row["obs"]["raised"],
@@ -463,16 +492,15 @@ def run(rep):
     rep.coverage["mc"] = {"module": "AssignMC", "level": 1 if thorough else 0, "triples": res.distinct,
                           "wall_s": round(res.wall_s, 2)}
     # 2. rows observed on the real assign
-    uni = exhaustive_universe()
-    if thorough:
-        cases = list(uni)
-        rep.coverage["exhaustive"] = True
-    else:
-        cases = rng.sample(uni, 1000)
-        rep.coverage["exhaustive"] = False
-    rep.coverage["enumerated_universe"] = len(uni)
+    fams = [("depth1", exhaustive_universe(), 1000), ("nested", nested_family(), 500),
+            ("wrappers", wrapper_family(), 400)]
+    cases = []
+    for name, uni, nq in fams:
+        cases += list(uni) if thorough else rng.sample(uni, nq)
+        rep.coverage["enumerated_universe_" + name] = len(uni)
+    rep.coverage["exhaustive"] = thorough
     rep.coverage["enumerated_rows"] = len(cases)
-    nrand = 8000 if thorough else 1200
+    nrand = 8000 if thorough else 1000
     cases += [random_case(rng) for _ in range(nrand)]
     rep.coverage["random_rows"] = nrand
     procs = utilcheck.procs()
@@ -505,9 +533,11 @@ def run(rep):
     rep.coverage["traces_validated_against_impl"] = len(rows)
     rep.coverage["distinct_nontrivial"] = assigning + raising_struct
     rep.coverage["rule"] = (
-        "rows = (lhs tree, rhs tree, field selection): a seeded sample (quick) / all (thorough) of the enumerated "
-        "universe {depth-1 struct/array/union layouts over names a,b and leaves u5,u6,s5; dicts and lists of "
-        "Signals/Const/int} x {4 AssignTypes, 6 iterables}, plus seeded random depth<=2 trees (names a,b,c, arrays "
+        "rows = (lhs tree, rhs tree, field selection): a seeded sample (quick) / all (thorough) of three enumerated "
+        "universes -- depth1: {depth-1 struct/array/union layouts over names a,b and leaves u5,u6,s5; dicts and "
+        "lists of Signals/Const/int} x {4 AssignTypes, 6 iterables}; nested: {a: X, b: u5} vs {a: Y, b: u5} for all "
+        "depth-1 layouts X, Y x 11 selections incl. nested mappings; wrappers: values wrapped 0-2 times in "
+        "single-field structs / length-1 arrays on both sides x 4 AssignTypes -- plus seeded random depth<=2 trees (names a,b,c, arrays "
         "1-3, unions, dict/list wrappers, nested mappings) where one side is a near copy of the other; each row "
         "runs the real assign and simulates its statements. distinct_nontrivial = distinct rows that assigned at "
         "least one cell + distinct rows that raised although both sides are field-containing")
